@@ -541,6 +541,15 @@ def cli_equals_api(res, rng, dump):
             return
 
 
+def cli_on_a_terminal(res, rng, dump):
+    """The command line as a real process with its output on a pipe and on pseudo terminals of 80 and 200 columns: the
+    text it prints (escape sequences removed) is the same - a line is not cut, re-padded or re-arranged because a
+    terminal is looking."""
+    from vlib import cli
+    cli.terminal_agrees(res, 'c14', dump['data'], 'listing', cmds=(('traces', ('--no-color',)), ('traces', ()), ('kevents', ()),
+                                                                   ('callstacks', ())))
+
+
 def check_logs(res, rng):
     """Log lines: colour never changes the text; a record that names its process and thread is shown under the
     process the dump declares for that thread (the record itself declares it)."""
@@ -618,6 +627,8 @@ def run(ctx):
         check_colour(res, dump)
         if i % 2 == 0:
             cli_equals_api(res, rng, dump)
+        if i % 16 == 4:
+            cli_on_a_terminal(res, rng, dump)
         if prev_dump is not None and i % 2:
             concurrent_objects(res, rng, [prev_dump, dump])
             if i % 4 == 1:
@@ -643,6 +654,7 @@ def run(ctx):
     res.require('reused_object_requests', 20)
     res.require('callstack_headers_checked', 10)
     res.require('long_dumps', 1)
+    res.require('cli_runs_on_a_terminal', 8)
     res.require('log_lines_with_escape_sequences_observed', 10)
     res.require('compositions_under_event_filters', 10)
     res.require('cli_listings_compared', 12)
